@@ -60,6 +60,20 @@ type Step struct {
 	Obj    int                `json:"obj"`
 	Env    []verifphase.EnvOp `json:"env"`    // op=env: applied now (At ignored); op=reconcile: before managed-object write At
 	SetEnv []SetEnv           `json:"setEnv"` // op=reconcile only
+	// C10 (convergence stream) only:
+	Fault *Fault `json:"fault,omitempty"` // op=reconcile|phase: one API call of this pass fails
+	Drift bool   `json:"drift,omitempty"` // a disturbance: the undisturbed reference run skips this step
+}
+
+// Fault makes the Call-th API call (0-based; reads, dry runs and writes all count) of a pass
+// fail.  Mode "before": the call fails without effect; "after": a write takes effect but its
+// response is lost; "crash": the process dies right before the call (every later call of the
+// pass fails too, the dynamic cache is lost).  Budget = number of write requests of the pass that
+// reach the API and take effect (filled in by the generator; the model truncates the pass there).
+type Fault struct {
+	Call   int    `json:"call"`
+	Mode   string `json:"mode"`
+	Budget int    `json:"budget"`
 }
 
 type Scn struct {
@@ -67,6 +81,7 @@ type Scn struct {
 	Sets    []SetSpec         `json:"sets"`
 	Store   []verifphase.SObj `json:"store"`
 	Steps   []Step            `json:"steps"`
+	Rounds  int               `json:"rounds,omitempty"` // C10: settle rounds after the steps
 }
 
 const NS = "ns1"
@@ -82,12 +97,15 @@ func Scheme() *runtime.Scheme {
 	return s
 }
 
+var errInjected = fmt.Errorf("injected API failure")
+
 type sys struct {
-	scn    Scn
-	scheme *runtime.Scheme
-	env    *verifphase.Env
-	os     *objectsets.GenericObjectSetController
-	ph     *objectsetphases.GenericObjectSetPhaseController
+	lastCalls []callInfo
+	scn       Scn
+	scheme    *runtime.Scheme
+	env       *verifphase.Env
+	os        *objectsets.GenericObjectSetController
+	ph        *objectsetphases.GenericObjectSetPhaseController
 }
 
 func (y *sys) ns() string {
@@ -344,8 +362,8 @@ func (y *sys) applySetEnv(e SetEnv) {
 	}
 }
 
-// Exec runs a scenario and returns the canonical output line.
-func Exec(scn Scn) string {
+// newSys builds the store, the cache and the REAL controllers for a scenario.
+func newSys(scn Scn) *sys {
 	scheme := Scheme()
 	y := &sys{scn: scn, scheme: scheme, env: verifphase.NewEnv(scheme)}
 	c := y.env.Store.Client()
@@ -377,93 +395,150 @@ func Exec(scn Scn) string {
 	y.env.Store.DryRunVerdict = func(u *unstructured.Unstructured) error {
 		return verifphase.DryRunError(verdicts[u.GetKind()+"/"+u.GetName()], u)
 	}
+	return y
+}
+
+// callInfo describes one API call of a step (C10: injection points).
+type callInfo struct {
+	Write bool // non-dry-run mutating request
+}
+
+// doStep executes one schedule step and returns its output token.  If the step carries a fault
+// (C10) the chosen API call fails; y.lastCalls lists the API calls the step issued.
+func (y *sys) doStep(st Step) string {
 	ctx := context.Background()
-	var outs []string
-	for _, st := range scn.Steps {
-		from := len(y.env.Store.Log)
-		switch st.Op {
-		case "reconcile", "phase":
-			mw, sw := 0, 0
-			y.env.Store.BeforeWrite = func(r *verifstore.Request) {
-				if r.Key.Group == verifphase.Group {
-					for _, e := range st.Env {
-						if e.At == mw {
-							verifphase.ApplyEnv(y.env, e)
-						}
-					}
-					mw++
-				} else if strings.HasSuffix(r.Key.Kind, "ObjectSet") {
-					// third-party edits of the ObjectSet are scheduled relative to writes on ObjectSets
-					for _, e := range st.SetEnv {
-						if e.At == sw {
-							y.applySetEnv(e)
-						}
-					}
-					sw++
-				}
-			}
-			var res ctrl.Result
-			var err error
-			req := ctrl.Request{NamespacedName: types.NamespacedName{Namespace: y.ns(), Name: st.Set}}
-			if st.Op == "reconcile" {
-				res, err = y.os.Reconcile(ctx, req)
-			} else {
-				res, err = y.ph.Reconcile(ctx, req)
-			}
-			y.env.Store.BeforeWrite = nil
-			r := "ok"
-			if err != nil {
-				r = "err"
-			} else if res.Requeue || res.RequeueAfter > 0 {
-				r = "requeue"
-			}
-			log := y.env.Store.Log[from:]
-			outs = append(outs, "R "+r+" | "+verifphase.EventsStr(managedOnly(log))+" | "+y.setEventsStr(log, false)+" | "+y.setEventsStr(log, true))
-		case "env":
-			for _, e := range st.Env {
-				verifphase.ApplyEnv(y.env, e)
-			}
-			outs = append(outs, "-")
-		case "lifecycle":
-			y.applySetEnv(SetEnv{Op: "lifecycle", Set: st.Set, Value: st.Value})
-			outs = append(outs, "-")
-		case "touch":
-			y.applySetEnv(SetEnv{Op: "touch", Set: st.Set})
-			outs = append(outs, "-")
-		case "delete":
-			if st.Orphan {
-				y.env.Store.Mutate(y.setKey(st.Set), func(u *unstructured.Unstructured) {
-					for _, f := range u.GetFinalizers() {
-						if f == "orphan" {
-							return
-						}
-					}
-					u.SetFinalizers(append(u.GetFinalizers(), "orphan"))
-				})
-			}
-			y.env.Store.Remove(y.setKey(st.Set))
-			outs = append(outs, "-")
-		case "editPayload":
-			y.env.Store.Mutate(y.setKey(st.Set), func(u *unstructured.Unstructured) {
-				phases, _, _ := unstructured.NestedSlice(u.Object, "spec", "phases")
-				if st.Phase < len(phases) {
-					ph := phases[st.Phase].(map[string]interface{})
-					objs, _ := ph["objects"].([]interface{})
-					if st.Obj < len(objs) {
-						o := objs[st.Obj].(map[string]interface{})
-						_ = unstructured.SetNestedField(o, st.Value, "object", "spec", "v")
-						_ = unstructured.SetNestedSlice(u.Object, phases, "spec", "phases")
+	from := len(y.env.Store.Log)
+	switch st.Op {
+	case "reconcile", "phase":
+		mw, sw := 0, 0
+		y.env.Store.BeforeWrite = func(r *verifstore.Request) {
+			if r.Key.Group == verifphase.Group {
+				for _, e := range st.Env {
+					if e.At == mw {
+						verifphase.ApplyEnv(y.env, e)
 					}
 				}
-			})
-			outs = append(outs, "-")
-		case "restart":
-			y.env.Cache.Restart()
-			outs = append(outs, "-")
-		default:
-			outs = append(outs, "BAD-STEP")
+				mw++
+			} else if strings.HasSuffix(r.Key.Kind, "ObjectSet") {
+				// third-party edits of the ObjectSet are scheduled relative to writes on ObjectSets
+				for _, e := range st.SetEnv {
+					if e.At == sw {
+						y.applySetEnv(e)
+					}
+				}
+				sw++
+			}
 		}
+		// --- fault injection (C10)
+		base := y.env.Store.Calls
+		y.lastCalls = nil
+		hit, crashed := false, false
+		y.env.Store.CallFault = func(idx int, r *verifstore.Request) verifstore.Fault {
+			y.lastCalls = append(y.lastCalls, callInfo{Write: r != nil && !r.DryRun})
+			if st.Fault == nil {
+				return verifstore.Fault{}
+			}
+			if crashed {
+				return verifstore.Fault{Before: errInjected}
+			}
+			if idx-base != st.Fault.Call {
+				return verifstore.Fault{}
+			}
+			hit = true
+			switch st.Fault.Mode {
+			case "crash": // the process dies right before this call: nothing it would do afterwards happens
+				crashed = true
+				return verifstore.Fault{Before: errInjected}
+			case "after": // the request takes effect, the response is lost
+				if r != nil && !r.DryRun {
+					return verifstore.Fault{After: errInjected}
+				}
+				return verifstore.Fault{Before: errInjected}
+			default: // "before": the request fails without effect
+				return verifstore.Fault{Before: errInjected}
+			}
+		}
+		var res ctrl.Result
+		var err error
+		req := ctrl.Request{NamespacedName: types.NamespacedName{Namespace: y.ns(), Name: st.Set}}
+		if st.Op == "reconcile" {
+			res, err = y.os.Reconcile(ctx, req)
+		} else {
+			res, err = y.ph.Reconcile(ctx, req)
+		}
+		y.env.Store.BeforeWrite = nil
+		y.env.Store.CallFault = nil
+		log := y.env.Store.Log[from:]
+		if hit {
+			// a restart follows a crash: the dynamic cache is in-memory only
+			if st.Fault.Mode == "crash" {
+				y.env.Cache.Restart()
+			}
+			eff := 0
+			for _, r := range log {
+				if !r.DryRun && r.Err != "Injected" {
+					eff++
+				}
+			}
+			if eff != st.Fault.Budget {
+				return fmt.Sprintf("R fault budget-mismatch effective-writes=%d", eff)
+			}
+			return "R fault"
+		}
+		r := "ok"
+		if err != nil {
+			r = "err"
+		} else if res.Requeue || res.RequeueAfter > 0 {
+			r = "requeue"
+		}
+		return "R " + r + " | " + verifphase.EventsStr(managedOnly(log)) + " | " + y.setEventsStr(log, false) + " | " + y.setEventsStr(log, true)
+	case "env":
+		for _, e := range st.Env {
+			verifphase.ApplyEnv(y.env, e)
+		}
+		return "-"
+	case "lifecycle":
+		y.applySetEnv(SetEnv{Op: "lifecycle", Set: st.Set, Value: st.Value})
+		return "-"
+	case "touch":
+		y.applySetEnv(SetEnv{Op: "touch", Set: st.Set})
+		return "-"
+	case "delete":
+		if st.Orphan {
+			y.env.Store.Mutate(y.setKey(st.Set), func(u *unstructured.Unstructured) {
+				for _, f := range u.GetFinalizers() {
+					if f == "orphan" {
+						return
+					}
+				}
+				u.SetFinalizers(append(u.GetFinalizers(), "orphan"))
+			})
+		}
+		y.env.Store.Remove(y.setKey(st.Set))
+		return "-"
+	case "editPayload":
+		y.env.Store.Mutate(y.setKey(st.Set), func(u *unstructured.Unstructured) {
+			phases, _, _ := unstructured.NestedSlice(u.Object, "spec", "phases")
+			if st.Phase < len(phases) {
+				ph := phases[st.Phase].(map[string]interface{})
+				objs, _ := ph["objects"].([]interface{})
+				if st.Obj < len(objs) {
+					o := objs[st.Obj].(map[string]interface{})
+					_ = unstructured.SetNestedField(o, st.Value, "object", "spec", "v")
+					_ = unstructured.SetNestedSlice(u.Object, phases, "spec", "phases")
+				}
+			}
+		})
+		return "-"
+	case "restart":
+		y.env.Cache.Restart()
+		return "-"
 	}
+	return "BAD-STEP"
+}
+
+// finalStrs prints the ObjectSets / phase objects and the managed objects of the store.
+func (y *sys) finalStrs() (string, string) {
 	var objs, sets []string
 	for _, u := range y.env.Store.Snapshot() {
 		switch u.GroupVersionKind().Group {
@@ -481,7 +556,18 @@ func Exec(scn Scn) string {
 	}
 	sort.Strings(objs)
 	sort.Strings(sets)
-	return strings.Join(outs, " ## ") + " ## " + strings.Join(sets, ";") + " ## " + strings.Join(objs, ";")
+	return strings.Join(sets, ";"), strings.Join(objs, ";")
+}
+
+// Exec runs a scenario and returns the canonical output line.
+func Exec(scn Scn) string {
+	y := newSys(scn)
+	var outs []string
+	for _, st := range scn.Steps {
+		outs = append(outs, y.doStep(st))
+	}
+	sets, objs := y.finalStrs()
+	return strings.Join(outs, " ## ") + " ## " + sets + " ## " + objs
 }
 
 var _ client.Object = (*corev1alpha1.ObjectSet)(nil)
